@@ -406,6 +406,10 @@ def run_wr(ops):
                 k, v = a.split(",")
                 w.write_bitarray(int(k), bitarray("" if v == "-" else v))
                 out.append("ok")
+            elif c == "y":
+                k, v = a.split(",")
+                w.write_bytes(int(k), bytes(int(x) for x in v.split(".")) if v != "-" else b"")
+                out.append("ok")
             elif c == "u":
                 w.write_uint(int(a))
                 out.append("ok")
@@ -516,7 +520,7 @@ def rand_wr_prog(rng):
         else:
             v = rand_value(rng)
             k = rng.choice([0, 1, 3, 8, 9, 16, 33, 64, 131])
-            kind = rng.choice(["b", "n", "l", "a", "u", "s", "s", "u"])
+            kind = rng.choice(["b", "n", "l", "a", "u", "s", "s", "u", "y", "y"])
             if kind == "b":
                 ops.append("b%d" % rng.randrange(2))
             elif kind == "n":
@@ -529,6 +533,11 @@ def rand_wr_prog(rng):
                 n = rng.randrange(0, 14)
                 ops.append("a%d,%s" % (rng.choice([n, n, n + 3, max(0, n - 1)]),
                                        "".join(rng.choice("01") for _ in range(n)) or "-"))
+            elif kind == "y":
+                # byte strings, also inside bounded blocks (aligned or not), mostly 0xFF / 0x00 bytes near a block's end
+                nb = rng.randrange(0, 4)
+                bs = [rng.choice([255, 255, 0, rng.randrange(256)]) for _ in range(rng.choice([nb, nb, nb, nb + 1, max(0, nb - 1)]))]
+                ops.append("y%d,%s" % (nb, ".".join(map(str, bs)) or "-"))
             elif kind == "u":
                 ops.append("u%d" % rng.choice([v, v, v, -v - 1]))
             else:
